@@ -21,7 +21,10 @@ let fail_ = pt M.pk_fail [] []
 let incl t ign = pt M.pk_include [t; (if ign then 1 else 0)] []
 let block b body = pt M.pk_block [b] body
 let extends t = pt M.pk_extends [t] []
-let macro m body = pt M.pk_macro [m] body
+let macro m body = pt M.pk_macro [m; 0; 0] body
+(* second parameter v4 whose default is the expression v<x> over the caller's variables *)
+let macro_d m x body = pt M.pk_macro [m; 1; x] body
+let lcall m x = pt M.pk_lcall [m; x] []
 let call t m x = pt M.pk_call [t; m; x] []
 let if_ x body = pt M.pk_if [x] body
 
@@ -37,7 +40,10 @@ let rec print_tree (b : Buffer.t) (t : M.pool_tree) =
     Buffer.add_string b (Printf.sprintf "{%% include 't%d'%s %%}" (p 0) (if p 1 <> 0 then " ignore missing" else ""))
   else if k = M.pk_block then (Buffer.add_string b (Printf.sprintf "{%% block b%d %%}" (p 0)); body (); Buffer.add_string b "{% endblock %}")
   else if k = M.pk_extends then Buffer.add_string b (Printf.sprintf "{%% extends 't%d' %%}" (p 0))
-  else if k = M.pk_macro then (Buffer.add_string b (Printf.sprintf "{%% macro m%d(v0) %%}" (p 0)); body (); Buffer.add_string b "{% endmacro %}")
+  else if k = M.pk_macro then
+    (Buffer.add_string b (if p 1 <> 0 then Printf.sprintf "{%% macro m%d(v0, v4 = v%d) %%}" (p 0) (p 2) else Printf.sprintf "{%% macro m%d(v0) %%}" (p 0));
+     body (); Buffer.add_string b "{% endmacro %}")
+  else if k = M.pk_lcall then Buffer.add_string b (Printf.sprintf "{{ m%d(v%d) }}" (p 0) (p 1))
   else if k = M.pk_call then Buffer.add_string b (Printf.sprintf "{%% import 't%d' as q %%}{{ q.m%d(v%d) }}" (p 0) (p 1) (p 2))
   else if k = M.pk_if then (Buffer.add_string b (Printf.sprintf "{%% if v%d %%}" (p 0)); body (); Buffer.add_string b "{% endif %}")
   else ()
@@ -84,6 +90,8 @@ type op =
   | Toggle of int
   | Gc
   | Poison
+  | Attr of int * int * bool * int                      (* engine, struct type, passed as pointer, which object template *)
+  | Flood of int                                        (* another engine looks up that many distinct attribute names *)
 
 let junk_cell = { M.pcl_kind = n_of_int 77; pcl_payload = [ n_of_int 13 ]; pcl_children = [ nat_of_int 0; nat_of_int 1; nat_of_int 2 ] }
 let model_ops (o : op) : M.pool_op list =
@@ -94,6 +102,7 @@ let model_ops (o : op) : M.pool_op list =
   | Render (e, n, vars) -> [ M.PORender (nat_of_int e, n_of_int n, List.map (fun (x, v) -> (n_of_int x, n_of_int v)) vars) ]
   | Toggle e -> [ M.POToggleCache (nat_of_int e) ]
   | Gc -> [ M.POGC ]
+  | Attr _ | Flood _ -> []                                (* attribute access on Go structs: outside the machine *)
   | Poison -> List.map (fun k -> M.POPoison (k, junk_cell)) [ M.pk_root; M.pk_text; M.pk_var; M.pk_block; M.pk_include; M.pk_call; M.pk_if; M.pk_macro ]
 
 let unmodelled = ref 0
@@ -142,7 +151,9 @@ let emit_history oc (r : rng) ~(stream : string) ~(engines : int) (store : ((int
             "vars", JL (List.map (fun (x, v) -> JL [ JI x; JI v ]) vars); "exp", JS exp ]
       | Toggle e -> [ "op", JS "togglecache"; "e", JI e ]
       | Gc -> [ "op", JS "gc" ]
-      | Poison -> [ "op", JS "poison" ] in
+      | Poison -> [ "op", JS "poison" ]
+      | Attr (e, ty, ptr, tpl) -> [ "op", JS "attr"; "e", JI e; "ty", JI ty; "ptr", JB ptr; "tpl", JI tpl ]
+      | Flood n -> [ "op", JS "flood"; "cnt", JI n ] in
     Ob j) ops in
   emit oc (Ob [ "stream", JS stream; "engines", JI engines; "nt", JB !nt; "len", JI (List.length ops);
                 "model_predicts_history_dependence", JB !mv_here;
@@ -180,16 +191,25 @@ let gen_src (r : rng) ~(name : int) : M.pool_src =
           extends (wpick r [ 12, 1; 1, 9; 1, 2 ])
           :: List.init (1 + rint r 3) (fun _ -> block (1 + rint r 3) (gen_body r ~rank:0 ~depth:1 ~blocks:false))
           @ (if rint r 3 = 0 then [ fresh_text () ] else [])
+        else if rint r 4 = 0 then
+          (* a macro of its own, with a default over the context, called from the page itself *)
+          macro_d 3 (rint r 4) [ fresh_text (); var 0; var 4 ] :: gen_body r ~rank:0 ~depth:0 ~blocks:true @ [ lcall 3 (rint r 4) ]
         else gen_body r ~rank:0 ~depth:0 ~blocks:true
     | 1 -> gen_body r ~rank:1 ~depth:0 ~blocks:true @ [ block (1 + rint r 3) (gen_body r ~rank:1 ~depth:1 ~blocks:false) ]
     | 2 ->
         if rint r 6 = 0 then extends 3 :: [ block 1 [ fresh_text () ] ]
         else gen_body r ~rank:2 ~depth:0 ~blocks:(rint r 3 = 0)
     | 3 ->
-        List.concat (List.init (1 + rint r 2) (fun i ->
-          [ macro (i + 1) (List.init (1 + rint r 3) (fun _ ->
-              match rint r 5 with 0 -> var 0 | 1 -> var (1 + rint r 3) | 2 -> if_ 0 [ fresh_text () ] | 3 -> varf (rint r 4) | _ -> fresh_text ())) ]))
+        let nm = 1 + rint r 2 in
+        List.concat (List.init nm (fun i ->
+          let dflt = rint r 2 = 0 in
+          let body = List.init (1 + rint r 3) (fun _ ->
+              match rint r 6 with 0 -> var 0 | 1 -> var (1 + rint r 3) | 2 -> if_ 0 [ fresh_text () ] | 3 -> varf (rint r 4)
+                                | 4 -> var 4 | _ -> fresh_text ()) in
+          [ (if dflt then macro_d (i + 1) (rint r 4) (body @ [ var 4 ]) else macro (i + 1) body) ]))
         @ (if rint r 2 = 0 then [ fresh_text () ] else [])
+        @ (if rint r 3 = 0 then [ lcall (1 + rint r nm) (rint r 4) ] else [])
+        @ (if rint r 12 = 0 then [ lcall 5 0 ] else [])
         @ (if rint r 5 = 0 then [ block 1 [ fresh_text () ] ] else [])
     | _ -> gen_body r ~rank:3 ~depth:1 ~blocks:false in
   { M.psrc_nodes = nodes; psrc_ok = ok }
@@ -211,8 +231,11 @@ let gen_history (r : rng) ~(maxlen : int) =
   if rint r 5 = 0 then push (Toggle 0);
   let len = max (rrange r 3 (maxlen - 1)) (List.length !ops + 2) in
   let focus = ref 0 in
+  (* a third of the histories also render Go structs (by value and through pointers) through attribute access *)
+  let objs = rint r 3 = 0 and oty = rint r 4 and floods = ref 0 in
   while List.length !ops < len do
-    match wpick r [ 42, `Render; 9, `Rereg; 7, `Parse; 6, `Load; 5, `Toggle; 6, `Gc; 4, `Poison; (if engines = 2 then 10 else 0), `Other; 4, `BadReg ] with
+    match wpick r [ 42, `Render; 9, `Rereg; 7, `Parse; 6, `Load; 5, `Toggle; 6, `Gc; 4, `Poison; (if engines = 2 then 10 else 0), `Other; 4, `BadReg;
+                    (if objs then 22 else 0), `Attr; (if objs && !floods < 1 then 3 else 0), `Flood ] with
     | `Render ->
         let n = if rint r 3 <> 0 then !focus else wpick r [ 4, 0; 2, 1; 2, 2; 1, 3; 1, 9; 1, 4 ] in
         focus := n; push (Render (0, n, gen_vars r))
@@ -223,6 +246,8 @@ let gen_history (r : rng) ~(maxlen : int) =
     | `Load -> push (Load (0, wpick r [ 2, 0; 2, 1; 3, 2; 2, 3; 1, 9; 1, 4 ]))
     | `Toggle -> push (Toggle (rint r engines))
     | `Gc -> push Gc
+    | `Attr -> push (Attr (rint r engines, (if rint r 4 = 0 then rint r 4 else oty), rbool r, rint r 3))
+    | `Flood -> incr floods; push (Flood 1200)
     | `Poison -> push Poison
     | `Other ->
         (match rint r 3 with
@@ -257,6 +282,17 @@ let fixed (r : rng) =
     (* the included template is rendered on its own before and after the include *)
     (1, [], [ reg 0 3 mac; reg 0 2 inc; reg 0 0 (s [ text 1; incl 2 false; text 2 ]); Render (0, 2, v); Render (0, 0, v);
               Render (0, 2, v); Render (0, 0, v); Render (0, 3, v); Render (0, 0, v) ]);
+    (* a macro default over the context, through an import from two pages and from the library itself: the same
+       templates rendered with different contexts *)
+    (1, [], [ reg 0 3 (s [ macro_d 1 2 [ var 0; var 4 ]; text 3; lcall 1 1 ]); reg 0 0 (s [ text 1; call 3 1 1 ]); reg 0 1 (s [ text 2; call 3 1 3 ]);
+              Render (0, 0, [ (1, 5); (2, 6) ]); Render (0, 1, [ (3, 7); (2, 9) ]); Render (0, 0, [ (1, 5); (2, 8) ]); Render (0, 3, [ (1, 4); (2, 2) ]);
+              Render (0, 0, [ (1, 5); (2, 6) ]); Render (0, 1, [ (3, 7) ]) ]);
+    (1, [], [ reg 0 0 (s [ macro_d 3 1 [ text 1; var 0; var 4 ]; lcall 3 2; text 2 ]); Render (0, 0, [ (1, 5); (2, 6) ]); Render (0, 0, [ (1, 7); (2, 6) ]);
+              Render (0, 0, [ (1, 5); (2, 6) ]) ]);
+    (* Go structs with a pointer-receiver method: by value first, then through a pointer, and the other way round, on
+       this and on another engine, with an attribute-cache roll-over in between *)
+    (2, [], [ reg 0 0 a; Attr (0, 0, false, 0); Attr (0, 0, true, 0); Attr (1, 1, true, 0); Attr (0, 1, false, 2); Attr (1, 1, true, 1);
+              Render (0, 0, []); Attr (0, 2, true, 0); Flood 1200; Attr (1, 2, false, 2); Attr (0, 2, true, 0); Attr (0, 2, true, 0) ]);
     (* a missing include fails the render; the template renders the same afterwards on a good and a bad name *)
     (1, [], [ reg 0 0 (s [ text 1; incl 9 false ]); reg 0 1 (s [ text 2; incl 9 true; text 3 ]); Render (0, 0, []); Render (0, 1, []);
               Render (0, 0, []); Render (0, 1, []) ]) ]
